@@ -898,3 +898,19 @@ Proof.
   - inversion R; subst; assumption.
   - destruct (step cf s0 l) eqn:E; [|discriminate]. eapply IH; [|exact R]. eapply step_size_inv; eauto.
 Qed.
+
+(* every Flush path (external Flush, Wait, the flusher's tick arm, its deferred Flush) does wg.Add(1)
+   BEFORE it takes the tasks out of the container, and the commander path before it confirms: a thread
+   that holds removed tasks past that point is counted by the WaitGroup, so Wait cannot return *)
+Lemma entered_counted cf s t : reachable cf s -> In t (s_threads s) -> entered t = 1%nat -> (1 <= s_wg s)%nat.
+Proof.
+  intros R Hin He. rewrite (I_wg s (reachable_inv cf s R)). pose proof (tsum_le_In entered _ _ Hin). lia.
+Qed.
+
+Lemma wait_return_none_entered cf s i snap s' : reachable cf s ->
+  nth_error (s_threads s) i = Some (TW3 snap) -> step cf s (LT i AGo) = Some s' ->
+  forall t, In t (s_threads s) -> entered t = 0%nat.
+Proof.
+  intros R Hi H. unfold step in H. rewrite Hi in H. simpl in H. destruct (s_wg s) eqn:Ewg; [|discriminate].
+  apply tsum_zero. rewrite <- (I_wg s (reachable_inv cf s R)). exact Ewg.
+Qed.
